@@ -3,6 +3,7 @@ package props
 import (
 	"fmt"
 	"os"
+	"path/filepath"
 	"strconv"
 	"strings"
 	"testing"
@@ -54,7 +55,36 @@ func c15Source(bodies []string) string {
 
 // renderBodies compiles one bundle with a template per body and renders each.
 func renderBodies(bodies []string) ([]string, error) {
-	cb, err, pn := compileBundle([]string{"c15.soy"}, []string{c15Source(bodies)}, nil)
+	outs, err := renderBodiesVia(bodies, false)
+	if err != nil {
+		return nil, err
+	}
+	// the same source read from a file (AddTemplateDir) is the same template text
+	fromFile, err := renderBodiesVia(bodies, true)
+	if err != nil {
+		return nil, fmt.Errorf("%s the file is rejected: %v", fileDiff, err)
+	}
+	for i := range outs {
+		if outs[i] != fromFile[i] {
+			return nil, fmt.Errorf("%s body %q renders %q from a string and %q from a file", fileDiff, bodies[i], outs[i], fromFile[i])
+		}
+	}
+	return outs, nil
+}
+
+const fileDiff = "the same source gives different templates when it is loaded from a file:"
+
+func renderBodiesVia(bodies []string, file bool) ([]string, error) {
+	var (
+		cb  *compiled
+		err error
+		pn  interface{}
+	)
+	if file {
+		cb, err, pn = compileDir(filepath.Join(outDir(), "c15-dir-"+shard()), []string{"c15.soy"}, []string{c15Source(bodies)}, nil)
+	} else {
+		cb, err, pn = compileBundle([]string{"c15.soy"}, []string{c15Source(bodies)}, nil)
+	}
 	if pn != nil {
 		return nil, fmt.Errorf("compiler panicked: %v", pn)
 	}
@@ -101,6 +131,9 @@ func checkC15(c C15Case) Verdict {
 			bodies[i] = nb.before + r + nb.after
 		}
 		outs, err := renderBodies(bodies)
+		if err != nil && strings.HasPrefix(err.Error(), fileDiff) {
+			return bad(true, "%v", err)
+		}
 		if err != nil {
 			// find the culprit
 			for _, r := range c.Runs {
@@ -173,6 +206,9 @@ func checkC15(c C15Case) Verdict {
 			}
 		}
 		outs, err := renderBodies(bodies)
+		if err != nil && strings.HasPrefix(err.Error(), fileDiff) {
+			return bad(true, "%v", err)
+		}
 		if err != nil {
 			for i := range c.Runs {
 				if _, e := renderBodies([]string{bodies[i]}); e != nil {
